@@ -90,6 +90,8 @@ def run(repo: Repo, rep: Report, tier: str) -> None:
                       f"{k.name} replaces node ids but never rewrites {s}: a consumer keeps a reference to a removed node",
                       where or k.loc())
 
+    from .shared import slot_rewrites_are_self_referential as _srs
+    _srs(repo, rep, "C10-R1")
     # ---------------- R2 ---------------------------------------------------------------
     rep.rule(
         "C10-R2",
@@ -133,7 +135,11 @@ def run(repo: Repo, rep: Report, tier: str) -> None:
                     own = _init_fields(repo, c)
                     for fld in sorted(own - IDENTITY_FIELDS):
                         if fld in fields_read:
-                            rep.ok("C10-R3", f"CSE key reads {cname}.{fld}", "in key", kf.loc(br.node))
+                            from .util import canon as _canon3
+                            rets = [n for part in br.region for n in ([part] if isinstance(part, ast.Return) else [x for x in ast.walk(part) if isinstance(x, ast.Return)]) if n.value is not None]
+                            always = all(_unconditional_read(_canon3(kf).node(r.value), var, fld) for r in rets if _mentions_field(_canon3(kf).node(r.value), var, fld))
+                            rep.check(always, "C10-R3", f"CSE key reads {cname}.{fld}", "in key" if always else
+                                      f"{cname}.{fld} enters the key only on one arm of a conditional expression: nodes that differ in it are merged whenever the other arm is taken", kf.loc(br.node))
                             continue
                         ok, why = _key_exception(repo, cname, fld)
                         rep.check(ok, "C10-R3", f"CSE key reads {cname}.{fld}",
@@ -404,9 +410,16 @@ def run(repo: Repo, rep: Report, tier: str) -> None:
         if ok:
             OUT = f"self._get_const_value({m9.group(1)}.output_value, {m9.group(2)})"
             bt = norm(cn.body)
-            ok = bt in (OUT, f"1 if {OUT} is None else {OUT}", f"{OUT} if {OUT} is not None else 1")
-            detail = "output = const(output_value), 1 only if that is None; value = output if cmp else 0" if ok else detail
-        rep.check(ok, "C10-R9", "a folded decider keeps `output_value if cmp else 0`", detail if ok else f"folded value `{detail}`: an output constant of 0 (or the comparison result) is not preserved", cpo.loc(n))
+            FOLD = norm(cn.test)
+            gs9 = _cguards9(cpo, n)
+            # the forwarded value must be a constant whenever the comparison holds: a guard `FOLD and OUT is None -> skip`
+            # (or `OUT is None -> skip`) has to precede the store; substituting a default for a run-time value is wrong
+            excluded = any((not pol) and g in (f"{FOLD} and {OUT} is None", f"{OUT} is None and {FOLD}", f"{OUT} is None") for g, pol in gs9)
+            ok = bt == OUT and excluded
+            detail = ("value = const(output_value) if cmp else 0; not folded when the comparison holds and the output is a run-time value" if ok else
+                      (f"folded value `{bt[:80]}`" + ("" if bt == OUT else ": a default replaces an output value that is not a constant, so `(2 > 1) : y` with a run-time y folds to that default")
+                       + ("" if excluded else "; nothing skips the fold when the output value is not a constant")))
+        rep.check(ok, "C10-R9", "a folded decider keeps `output_value if cmp else 0`", detail, cpo.loc(n))
 
     # ---------------- R7 ---------------------------------------------------------------
     rep.rule("C10-R7", "common-subexpression elimination merges only IRArith/IRDecider nodes and keeps the first occurrence")
@@ -558,3 +571,23 @@ def _body_stmts(body: list[ast.stmt]) -> list[ast.stmt]:
             if isinstance(n, ast.stmt):
                 out.append(n)
     return out
+
+
+def _mentions_field(node: ast.AST, var: str, fld: str) -> bool:
+    return any(isinstance(x, ast.Attribute) and x.attr == fld and isinstance(x.value, ast.Name) and x.value.id == var for x in ast.walk(node))
+
+
+def _unconditional_read(node: ast.AST, var: str, fld: str) -> bool:
+    """Is `var.fld` evaluated on every evaluation of `node` (not only on one arm of a conditional expression / short-circuit operand)?"""
+    if isinstance(node, ast.Attribute) and node.attr == fld and isinstance(node.value, ast.Name) and node.value.id == var:
+        return True
+    if isinstance(node, ast.IfExp):
+        return _unconditional_read(node.test, var, fld) or (_unconditional_read(node.body, var, fld) and _unconditional_read(node.orelse, var, fld))
+    if isinstance(node, ast.BoolOp):
+        return _unconditional_read(node.values[0], var, fld)
+    if isinstance(node, ast.Call) and isinstance(node.func, ast.Name) and node.func.id == "ANY":
+        return all(_unconditional_read(a, var, fld) for a in node.args)
+    if isinstance(node, (ast.ListComp, ast.SetComp, ast.GeneratorExp, ast.DictComp, ast.Lambda)):
+        return any(_unconditional_read(g.iter, var, fld) for g in getattr(node, "generators", [])[:1])
+    return any(_unconditional_read(c, var, fld) for c in ast.iter_child_nodes(node))
+
